@@ -48,6 +48,7 @@ func FillOrder(order Order, amt sdkmath.Int, price sdkmath.LegacyDec) (quoteCoin
 	order.SetPaidOfferCoinAmount(order.GetPaidOfferCoinAmount().Add(paid))
 	order.SetReceivedDemandCoinAmount(order.GetReceivedDemandCoinAmount().Add(received))
 	order.SetOpenAmount(order.GetOpenAmount().Sub(amt))
+	verifFill(order, amt, price, paid, received)
 	return
 }
 
